@@ -57,6 +57,8 @@ type TOp struct {
 	Want       []string
 	SrcV6      bool
 	Decoy      string // absent | other : what the method's *other* ID field holds
+	// FromEntry: the probe comes from the address, and under the ID, of a contact that is in the table
+	FromEntry bool
 }
 
 type TableSc struct {
@@ -153,7 +155,7 @@ func genTable(t *rapid.T, bias string) TableSc {
 		}
 		sc.Peers = append(sc.Peers, p)
 	}
-	if bias == "c06" && rapid.Bool().Draw(t, "blocklist") {
+	if (bias == "c06" || bias == "c05" && uniformInt(t, 3, "blocklist.c05") == 0) && rapid.Bool().Draw(t, "blocklist") {
 		nb := rapid.IntRange(1, 3).Draw(t, "nblocked")
 		for i := 0; i < nb; i++ {
 			sc.Blocked = append(sc.Blocked, rapid.IntRange(0, np-1).Draw(t, "blocked"))
@@ -168,7 +170,7 @@ func genTable(t *rapid.T, bias string) TableSc {
 			TargetKind: rapid.SampledFrom([]string{"root", "entry", "near-entry", "near-entry", "bucket", "bucket", "random"}).Draw(t, "op.tkind"),
 			TargetTail: genBytesN(t, 20, "op.ttail"), TBucket: rapid.SampledFrom(append([]int{0, 1, 2, 4, 159}, hot...)).Draw(t, "op.tbucket"),
 			K: rapid.IntRange(0, 63).Draw(t, "op.k"), Want: genWant(t, "op.want"), SrcV6: rapid.Bool().Draw(t, "op.srcv6"),
-			Decoy: rapid.SampledFrom([]string{"absent", "other"}).Draw(t, "op.decoy"), RO: rapid.Bool().Draw(t, "op.ro")}
+			Decoy: rapid.SampledFrom([]string{"absent", "other"}).Draw(t, "op.decoy"), RO: rapid.Bool().Draw(t, "op.ro"), FromEntry: uniformInt(t, 4, "op.fromentry") == 0}
 		return op
 	}
 	nops := 10 + uniformInt(t, deep(t, 70), "nops")
@@ -926,6 +928,17 @@ func (m *tableMachine) probe1(op TOp, oi int, pre dht.VerifTableSnapshot) (pev t
 		}
 		src = &net.UDPAddr{IP: ip, Port: 3000 + oi}
 	}
+	sender := [20]byte{0xee, byte(oi), 1}
+	if op.FromEntry && len(pre.Entries) > 0 {
+		// a contact the node already knows asks: it is a requester like any other
+		e := pre.Entries[(op.K/7)%len(pre.Entries)]
+		src, sender = &net.UDPAddr{IP: append(net.IP(nil), e.IP...), Port: e.Port}, e.ID
+		m.c.Label("probe-from-known-contact")
+		// its query is heard before the reply is built: that is liveness evidence for its own entry
+		if em := m.model[keyOf(e)]; em != nil && m.modelValid {
+			em.lastQ, em.hasQ = m.vnow, true
+		}
+	}
 	own, decoy := "target", "info_hash"
 	if op.Method == "get_peers" {
 		own, decoy = "info_hash", "target"
@@ -977,7 +990,6 @@ func (m *tableMachine) probe1(op TOp, oi int, pre dht.VerifTableSnapshot) (pev t
 	for rep := 0; rep < 4; rep++ {
 		m.tseq++
 		tt := []byte(fmt.Sprintf("pr%d", m.tseq))
-		sender := [20]byte{0xee, byte(oi), 1}
 		pev = tev{kind: "query", addr: src.String(), ip: src.IP, id: sender, hasID: true, ro: op.RO}
 		b := mkQuery(tt, op.Method, mkArgs(sender, kv...))
 		if op.RO {
